@@ -25,6 +25,10 @@ func runMoreSuites(suite string, r *rand.Rand, res *Result, thorough bool) bool 
 		res.Rule = "random interleavings of up to 6 open transactions (Begin/Get/Set/Delete/Commit/Discard, misuse of finished handles, oversize values) over 3-8 adversarial keys on a real DB with tiny thresholds (memtable 60-2000 B, blocks 1-200 B, L0TargetNum 1-4, LevelRatio 1-4, ImmutableBuffer 0-3); the flusher is gated by the hooks and released by generator ops, so rotation, flush-add, compaction and flush-remove fall between the API calls the generator chooses; Close/Open cycles with a re-drawn configuration; every API result, every table content and every watermark value is replayed through the Lean model; non-trivial = concurrent transactions, discard, misuse or reopen"
 		runCases(s, dbGen(r, scale(40, 600), scale(120, 250), true), res)
 		runCases(s, dbGenManyTables(r, scale(4, 60)), res)
+	case "txnconc":
+		s := Suite{Name: "txnconc", DriverSuite: "hist", Exec: txnconcExec}
+		res.Rule = "4-16 free-running goroutines on 2-4 shared keys (bank transfers, counters, write-skew pairs, long readers) with rotation and flush forced by small memtables and every flush-queue length; the recorded history (begin/end order, read timestamps, store reads, writes, commit timestamps from the hook) is checked by the Lean history checker: commit order explains every read, real-time order respected; transfer totals conserved; non-trivial = every case (distinct seeds/workloads)"
+		runCases(s, txnconcGen(r, scale(8, 80)), res)
 	case "codec":
 		s := Suite{Name: "codec", DriverSuite: "codec", Exec: codecExec}
 		res.Rule = "encoders/decoders of data, index, footer, meta blocks (S2 removed), whole tables through table.Build and the recovery parser (complete and cut files), wal batches and their read-back at random cut lengths, concurrent encoders whose results are re-checked afterwards, key/value lengths around 2^16; non-trivial = every case (distinct inputs) carries at least one of these tags"
@@ -43,6 +47,8 @@ func moreSuiteByName(name string) (Suite, bool) {
 		return Suite{Name: "codec", DriverSuite: "codec", Exec: codecExec}, true
 	case "db":
 		return Suite{Name: "db", DriverSuite: "db", Exec: dbExec}, true
+	case "txnconc":
+		return Suite{Name: "txnconc", DriverSuite: "hist", Exec: txnconcExec}, true
 	}
 	return Suite{}, false
 }
